@@ -23,6 +23,8 @@ pub mod scripted;
 pub mod secsmoke;
 #[cfg(feature = "security")]
 pub mod c19;
+#[cfg(feature = "security")]
+pub mod c17;
 
 pub struct Spec {
   pub id: &'static str,
@@ -82,6 +84,8 @@ pub fn spec(id: &str) -> Option<Spec> {
     "X02" => Some(secsmoke::spec()),
     #[cfg(feature = "security")]
     "C19" => Some(c19::spec()),
+    #[cfg(feature = "security")]
+    "C17" => Some(c17::spec()),
     _ => None,
   }
 }
@@ -106,6 +110,8 @@ pub fn run(id: &str, tier: &str, ctx: &mut Ctx) -> Check {
     "X02" => secsmoke::run(tier, ctx),
     #[cfg(feature = "security")]
     "C19" => c19::run(tier, ctx),
+    #[cfg(feature = "security")]
+    "C17" => c17::run(tier, ctx),
     _ => panic!("unknown property {id}"),
   }
 }
